@@ -240,3 +240,81 @@ pub fn run_stress(toks: &[&str]) -> String {
         )
     }
 }
+
+// stressp <threads> <cached> <seed> <iters>: PATTERN-HEAVY model. 200 rules with 400 distinct keyMatch2 / keyMatch3 / regexMatch
+// patterns (more than any plausible compiled-pattern cache holds), no writer: every decision of every thread must be the
+// decision a single thread obtains. Exercises whatever process-wide state the exported matcher functions keep.
+const CONFP: &str = "[request_definition]\nr = sub, obj, act\n[policy_definition]\np = sub, obj, act\n[policy_effect]\ne = some(where (p.eft == allow))\n[matchers]\nm = r.sub == p.sub && keyMatch2(r.obj, p.obj) && !keyMatch3(r.obj, p.obj) && regexMatch(r.act, p.act)\n";
+
+fn runp<E: Enf>(mk: impl Fn(&tokio::runtime::Runtime) -> E, threads: usize, seed: u64, iters: usize, nrules: usize) -> String {
+    if HUNG.load(Ordering::SeqCst) {
+        return "SKIPPED-after-HANG".to_string();
+    }
+    let rt = crate::eng::rt();
+    let mut reqs: Vec<Vec<String>> = vec![];
+    for j in 0..nrules {
+        let u = format!("u{}", j % 5);
+        reqs.push(vec![u.clone(), format!("/res{}/42", j), "read".to_string()]);
+        reqs.push(vec![u.clone(), format!("/res{}/42/x", j), "read".to_string()]);
+        reqs.push(vec![u, format!("/res{}/42", j), format!("write{}", j)]);
+    }
+    let e = mk(&rt);
+    let oracle: Vec<bool> = reqs.iter().map(|r| e.enforce(r.clone()).unwrap()).collect();
+    let shared = Arc::new(e);
+    let bad = Arc::new(AtomicBool::new(false));
+    let mut hs = vec![];
+    for t in 0..threads {
+        let shared = shared.clone();
+        let bad = bad.clone();
+        let reqs = reqs.clone();
+        let oracle = oracle.clone();
+        let mut st = seed.wrapping_add(t as u64 * 7919 + 1);
+        hs.push(std::thread::spawn(move || {
+            for _ in 0..iters {
+                let i = (lcg(&mut st) as usize) % reqs.len();
+                if shared.enforce(reqs[i].clone()).unwrap() != oracle[i] {
+                    bad.store(true, Ordering::SeqCst);
+                }
+            }
+        }));
+    }
+    let deadline = Instant::now() + Duration::from_secs(240);
+    for h in hs {
+        loop {
+            if h.is_finished() {
+                let _ = h.join();
+                break;
+            }
+            if Instant::now() > deadline {
+                HUNG.store(true, Ordering::SeqCst);
+                return "HANG".to_string();
+            }
+            std::thread::sleep(Duration::from_millis(2));
+        }
+    }
+    // the serial decisions again, after the concurrent phase
+    let fin: Vec<bool> = reqs.iter().map(|r| shared.enforce(r.clone()).unwrap()).collect();
+    if fin != oracle {
+        return "BAD final".to_string();
+    }
+    if bad.load(Ordering::SeqCst) { "BAD decision".to_string() } else { "ok".to_string() }
+}
+
+pub fn run_stressp(toks: &[&str]) -> String {
+    let threads: usize = toks[1].parse().unwrap();
+    let cached = toks[2] == "1";
+    let seed: u64 = toks[3].parse().unwrap();
+    let iters: usize = toks[4].parse().unwrap();
+    let nrules = 200usize;
+    let mut base = String::new();
+    for j in 0..nrules {
+        // ':id' is a placeholder for keyMatch2 and plain text for keyMatch3 (a '{id}' pattern would be outside keyMatch2's grammar)
+        let obj = format!("/res{}/:id", j);
+        base.push_str(&format!("p, u{}, {}, read|write{}\n", j % 5, obj, j));
+    }
+    if cached {
+        runp(|rt| rt.block_on(CachedEnforcer::new(rt.block_on(DefaultModel::from_str(CONFP)).unwrap(), StringAdapter::new(base.clone()))).unwrap(), threads, seed, iters, nrules)
+    } else {
+        runp(|rt| rt.block_on(Enforcer::new(rt.block_on(DefaultModel::from_str(CONFP)).unwrap(), StringAdapter::new(base.clone()))).unwrap(), threads, seed, iters, nrules)
+    }
+}
